@@ -150,6 +150,24 @@ func runProperty(p *Program, id, tier, work string, keep bool) int {
 		}
 		units = append(units, p.buildLemmaUnit(lm))
 	}
+	// lemmas used as hints inside contracts must be proved too
+	listed := map[string]bool{}
+	for _, l := range ps.Lemmas {
+		listed[l] = true
+	}
+	for _, u := range append([]*UnitResult{}, units...) {
+		if u.gen == nil {
+			continue
+		}
+		for _, l := range sortedKeys(u.gen.UsedLemmas) {
+			if !listed[l] {
+				listed[l] = true
+				if lm := p.Specs.Lemmas[l]; lm != nil {
+					units = append(units, p.buildLemmaUnit(lm))
+				}
+			}
+		}
+	}
 	specProblems = append(specProblems, p.specErrs...)
 
 	var wg sync.WaitGroup
